@@ -61,6 +61,17 @@ def multi_scenarios(rnd, n, **flags):
     many = [{"tab": "IN", "ts": f"2020-01-{i + 1:02d}T10:00:00+00:00", "ex": "Coinbase", "ho": f"H{i:02d}", "type": "buy", "spot": "100", "amount": "1"} for i in range(23)]
     many.append({"tab": "OUT", "ts": "2020-03-01T10:00:00+00:00", "ex": "Coinbase", "ho": "H00", "type": "sell", "spot": "200", "amount": "0.5", "fee": "0"})
     out.append({"assets": {"B1": many}, "holders": [f"H{i:02d}" for i in range(23)]})
+    # many lots consumed by one disposal: many fractions per taxable event
+    lots = [{"tab": "IN", "ts": f"2020-01-{i + 1:02d}T10:00:00+00:00", "ex": "Coinbase", "ho": "Bob", "type": "buy", "spot": str(100 + i), "amount": "0.1"} for i in range(28)]
+    lots.append({"tab": "OUT", "ts": "2020-03-01T10:00:00+00:00", "ex": "Coinbase", "ho": "Bob", "type": "sell", "spot": "200", "amount": "2.75", "fee": "0"})
+    out.append({"assets": {"B1": lots}})
+    # acquisitions paid with a crypto fee (each is split into the acquisition and an artificial fee-only disposal)
+    cf = lambda p: [{"tab": "IN", "ts": y(2020, 1), "ex": "Coinbase", "ho": "Bob", "type": "buy", "spot": str(100 * p), "amount": "2", "crypto_fee": "0.01"},
+                    {"tab": "IN", "ts": y(2020, 2), "ex": "Coinbase", "ho": "Bob", "type": "buy", "spot": str(120 * p), "amount": "1", "crypto_fee": "0.02"},
+                    {"tab": "IN", "ts": y(2020, 3), "ex": "Coinbase", "ho": "Bob", "type": "interest", "spot": str(130 * p), "amount": "0.5"},
+                    {"tab": "OUT", "ts": y(2020, 6), "ex": "Coinbase", "ho": "Bob", "type": "sell", "spot": str(200 * p), "amount": "1.5", "fee": "0.01"},
+                    {"tab": "OUT", "ts": y(2021, 6), "ex": "Coinbase", "ho": "Bob", "type": "sell", "spot": str(300 * p), "amount": "0.5", "fee": "0"}]
+    out.append({"assets": {"B1": cf(1), "B2": cf(3)}})
     for _ in range(n):
         k = rnd.choice([1, 2, 2, 3])
         sc = {"assets": {}}
@@ -75,7 +86,8 @@ def windows_for(sc, rnd):
     days = sorted({e2e.local_date(t["ts"]) for txs in sc["assets"].values() for t in txs})
     pool = days + [days[0] - dt.timedelta(days=1), days[-1] + dt.timedelta(days=1), dt.date(days[0].year, 6, 30), dt.date(days[-1].year, 1, 1)]
     a, b = sorted([rnd.choice(pool), rnd.choice(pool)])
-    return [(None, None), (a, None), (None, b), (a, b)]
+    d = rnd.choice(days)
+    return [(None, None), (a, None), (None, b), (a, b), (d, d)]          # the last one is a one-day window (from-date == to-date)
 
 
 # ------------------------------------------------------------------ expectations computed in this process from the same files
@@ -1079,12 +1091,18 @@ def fault_cases(rnd, sc):
         s2 = json.loads(json.dumps(sc))
         s2["assets"]["B1"][i].update(kw)
         return s2
+
+    def other_asset(i, **kw):
+        # B2 is a configured asset, but only sheet B1 is processed (-a B1): the row is rejected for not belonging to its sheet, not for being unknown
+        s2 = mut(i, asset_cell="B2", **kw)
+        s2["config_assets"] = ["B1", "B2"]
+        return s2
     any_i = lambda: rnd.choice(range(len(txs)))
     cases.append(("unknown exchange", mut(any_i(), ex="Binance7"), None, None, []))
     cases.append(("unknown holder", mut(any_i(), ho="Mallory"), None, None, []))
     i = any_i()
     cases.append(("timestamp without time zone", mut(i, ts=txs[i]["ts"][:19]), None, None, []))
-    cases.append(("row whose asset differs from its sheet", mut(any_i(), asset_cell="B2"), None, None, []))
+    cases.append(("row whose asset differs from its sheet", other_asset(any_i()), None, None, ["-a", "B1"]))
     cases.append(("unknown asset in a row", mut(any_i(), asset_cell="ZZZ"), None, None, []))
     if ins:
         i = rnd.choice(ins)
@@ -1093,6 +1111,7 @@ def fault_cases(rnd, sc):
         cases.append(("zero spot price on an acquisition", mut(i, spot="0"), None, None, []))
         cases.append(("both crypto and fiat fee on an acquisition", mut(i, crypto_fee="0.01", fiat_fee="1"), None, None, []))
         cases.append(("non-numeric amount", mut(i, amount="lots"), None, None, []))
+        cases.append(("row whose asset differs from its sheet (IN row with a crypto fee)", other_asset(i, crypto_fee="0.001", type="buy"), None, None, ["-a", "B1"]))
     if outs:
         i = rnd.choice(outs)
         cases.append(("IN-only type in the OUT table", mut(i, type="buy"), None, None, []))
